@@ -106,6 +106,7 @@ type Unit struct {
 	cellCtr      int
 	Abstracted   []string
 	AssumedUse   map[string]bool
+	frameAcc     map[string][]Term // class -> (path condition of a return => frame goal there), see checkReturn
 	safe         map[string]bool
 	entry        *State
 	errors       []string
